@@ -257,3 +257,28 @@ Proof.
   - apply spec_none. intros d Hi. unfold last_containing in Hc. apply last_such_none in Hc.
     rewrite Forall_forall in Hc. apply Hc, Hi.
 Qed.
+
+(* ---- the selection depends on r only through the set of ranges containing it: it is constant as long as r crosses no start *)
+Lemma last_such_ext {A} (p q : A -> bool) l acc : (forall x, In x l -> p x = q x) -> last_such p l acc = last_such q l acc.
+Proof.
+  revert acc. induction l as [|x l IH]; intros acc H; [reflexivity|]. cbn [last_such].
+  rewrite (H x (or_introl eq_refl)). destruct (q x); apply IH; intros y Hy; apply H; right; exact Hy.
+Qed.
+Lemma select_locally_constant rs r r' : NoDup (map rkey rs) ->
+  (forall d, In d rs -> contains d r = contains d r') -> mr_select rs r = mr_select rs r'.
+Proof.
+  intros Hn H. unfold mr_select. rewrite !search_spec by apply sorted_ranges_sorted.
+  assert (Hn' : NoDup (map rkey (sorted_ranges rs))) by (eapply Permutation_NoDup; [apply Permutation_map, sort_perm|exact Hn]).
+  rewrite !(spec_last_containing _ _ (sorted_ranges_sorted rs) Hn'). unfold last_containing.
+  apply last_such_ext. intros d Hd. apply H. apply (sort_In _ key_leb). exact Hd.
+Qed.
+(* no start strictly between r and r', and neither of them is itself a start: the same ranges contain both *)
+Lemma no_start_between rs r r' : r <= r' ->
+  (forall d, In d rs -> r_start d < r \/ r' < r_start d) -> forall d, In d rs -> contains d r = contains d r'.
+Proof.
+  intros Hle H d Hd. specialize (H d Hd). unfold contains. destruct (r_type d).
+  - destruct (r_start d <=? r) eqn:E1; destruct (r_start d <=? r') eqn:E2; try reflexivity;
+      [apply Z.leb_le in E1; apply Z.leb_gt in E2; lia|apply Z.leb_gt in E1; apply Z.leb_le in E2; lia].
+  - destruct (r_start d <? r) eqn:E1; destruct (r_start d <? r') eqn:E2; try reflexivity;
+      [apply Z.ltb_lt in E1; apply Z.ltb_ge in E2; lia|apply Z.ltb_ge in E1; apply Z.ltb_lt in E2; lia].
+Qed.
